@@ -332,27 +332,16 @@ def m10_position_discipline(ck, F):
         ck.ok('M10', 'skip_bits: bits_read += n only after ensure_bits(n) succeeded', where_of(b, st[0][0]))
     else:
         ck.violation('M10', 'M10 : skip_bits : unguarded advance', where_of(b), 'skip_bits advances the position without ensure_bits(n) having succeeded'); ok = False
-    # rollback
-    b = F.body(RDN + 'rollback'); g = cfg_of(b)
-    st = [(bb, s) for bb in sorted(g.reach) for s in g.blocks[bb]['stmts'] if s['s'] == 'assign' and s['lhs']['proj'] and [e['i'] for e in s['lhs']['proj'] if e['p'] == 'field'] == [rr.F_BITS]]
-    guard = None
-    for bb in g.reach:
-        t = g.blocks[bb]['term']
-        if t['t'] == 'switch' and t['on']['o'] != 'const':
-            e = expr_of(F, b, t['on'])
-            if ematch(('op', 'Gt', ('param', 2, ()), ('op', 'Mul', LEN(('param', 1, (rr.F_BUFFER,))), ('c', 8))), e) is not None:
-                guard = {int(v): to for v, to in t['arms']}.get(0)
-    if guard is not None and len(st) == 1 and g.dominates(guard, st[0][0]) and _expr_rv(F, b, st[0][1]['rv'], 0, {}) == ('param', 2, ()):
-        ck.ok('M10', 'rollback: bits_read := checkpoint only when checkpoint <= 8*len(buffer)', where_of(b, st[0][0]))
+    # rollback and commit: decided on normalised terms by tabulation (shared with C14.E), not on one syntactic form
+    from .c14 import check_commit, check_rollback
+    good, why, b = check_rollback(F)
+    if good: ck.ok('M10', 'rollback: bits_read := checkpoint exactly when checkpoint <= 8*len(buffer) (guard tabulated)', where_of(b))
     else:
-        ck.violation('M10', 'M10 : rollback : unguarded restore', where_of(b), 'rollback restores a checkpoint without checking it against the buffer'); ok = False
-    # commit
-    b = F.body(RDN + 'commit'); g = cfg_of(b)
-    dr = rr.find_calls(F, b, 'VecDeque::<T, A>::drain')
-    good = len(dr) == 1 and ematch(('agg', 'Range', ('c', 0), ('op', 'Div', ('param', 1, (rr.F_BITS,)), ('c', 8))), expr_of(F, b, dr[0][1]['args'][1])) is not None
-    if good: ck.ok('M10', 'commit: drain(0..bits_read/8)', where_of(b, dr[0][0]))
+        ck.violation('M10', 'M10 : rollback : unguarded restore', where_of(b), 'rollback restores a checkpoint without checking it against the buffer (%s)' % why); ok = False
+    good, why, b = check_commit(F)
+    if good: ck.ok('M10', 'commit: drain(0..bits_read/8), bits_read := bits_read mod 8 (tabulated)', where_of(b))
     else:
-        ck.violation('M10', 'M10 : commit : drain range', where_of(b), 'commit does not drain exactly bits_read/8 bytes'); ok = False
+        ck.violation('M10', 'M10 : commit : drain range', where_of(b), 'commit does not drain exactly bits_read/8 bytes (%s)' % why); ok = False
     # who may write bits_read / buffer
     dw = rr.direct_writers(F, rr.F_BITS)
     extra = [short_fn(n) for n in dw if short_fn(n).split('::')[-1] not in ('skip_bits', 'rollback', 'commit', 'from_source')]
